@@ -1,7 +1,7 @@
 """Real rpyc servers for C16 / C17 (DESIGN.md 6.4).
 
 A *case* is (kind, transport, auth, nb, ops): kind in threaded | pool | oneshot | forking, transport in
-tcp | unix, ops = the token strings of lean/Driver/Server.lean (c<k>:<g|b|s|r>, k<k>:<g|b>, p<k>, l<k>,
+tcp | unix, ops = the token strings of lean/Driver/Server.lean (c<k>:<g|b|s|r>, c<k>:g:<j>, m<k>, h<k>, k<k>:<g|b>, p<k>, l<k>,
 o<k>:<n>, d<k>:<n>, g<k>, a<k>, z<k>, X, i<k>:<hbt..>, r<k>:<hex>).  `Session` starts the real server (threaded / pool / one-shot in this
 process on port 0 or a temp unix path; the forking server in a subprocess, because fork and SIGCHLD want a
 main thread of their own), executes one op at a time with real client sockets, and renders what can be
@@ -100,12 +100,19 @@ def make_service(record):
         def __init__(self):
             self.marks = []
             self.lent = []
+            self.gate = None
 
         def on_connect(self, conn):
             record("c", self, conn)
 
         def on_disconnect(self, conn):
             record("d", self, conn)
+            if self.gate is not None:
+                self.gate.wait(30)           # armed: stay in here until the harness releases it (`h<k>`)
+
+        def exposed_arm(self):
+            self.gate = threading.Event()
+            return "armed"
 
         def exposed_mark(self, k):
             self.marks.append(k)
@@ -542,6 +549,20 @@ def forking_child_main(argv):
 
 
 # ------------------------------------------------------------------------------------------ clients
+def high_fd(sock):
+    """move one of the harness's CLIENT sockets out of the low descriptor numbers before it connects, so that - as in a real
+    deployment, where clients live in other processes - the in-process server's accepted sockets get the lowest free numbers
+    (which number a new connection gets matters to the pool, whose table is keyed by it)"""
+    import fcntl
+    try:
+        fd = fcntl.fcntl(sock.fileno(), fcntl.F_DUPFD, 400)
+    except OSError:
+        return sock
+    s2 = socket.socket(fileno=fd)
+    sock.close()
+    return s2
+
+
 class Client(object):
     """one client: a real socket; an rpyc connection is put on top of it the first time it speaks the protocol"""
     def __init__(self, k, sess):
@@ -571,7 +592,7 @@ class Client(object):
                 self.sock, self.open, self.eof = s, False, True
                 return "ok"
             if be.transport == "unix":
-                s = socket.socket(socket.AF_UNIX, socket.SOCK_STREAM)
+                s = high_fd(socket.socket(socket.AF_UNIX, socket.SOCK_STREAM))
                 _serial[0] += 1
                 name = ("\0rv-%d-%d-%d" % (os.getpid(), _serial[0], self.k)).encode()
                 s.bind(name)
@@ -579,7 +600,9 @@ class Client(object):
                 s.settimeout(3)
                 s.connect(be.addr)
             else:
-                s = socket.create_connection(be.addr, timeout=3)
+                s = high_fd(socket.socket(socket.AF_INET, socket.SOCK_STREAM))
+                s.settimeout(3)
+                s.connect(be.addr)
                 self.peer = peer_key(s.getsockname())
         except (ConnectionRefusedError, FileNotFoundError):
             try:
@@ -654,6 +677,9 @@ class Client(object):
                     return "keyerr"
                 except AttributeError:
                     return "resolved"        # found, then refused by the attribute policy: the reference did resolve
+            if what == "arm":
+                res = conn.sync_request(_c.HANDLE_CALLATTR, conn.root, "arm", (), ())
+                return "done" if res == "armed" else "wrong:%r" % (res,)
             if what == "use":
                 how, obj, a, want = USES[arg % len(USES)]()
                 res = conn.sync_request(_c.HANDLE_CALLATTR, conn.root, "consume", (how, obj, a), ())
@@ -833,6 +859,7 @@ class Session(object):
         self.clients = {}
         self.lends = []
         self.flash_peers = set()
+        self.fd_of = {}
         self.proc_fds = nfds()
         self.proc_threads = threading.active_count()
         self.residue = None
@@ -849,21 +876,70 @@ class Session(object):
             raise
 
     # -- one op -------------------------------------------------------------------------------
+    def refresh_fds(self):
+        srv = getattr(self.backend, "srv", None)
+        for fd, conn in list(getattr(srv, "fd_to_conn", {}).items()):
+            try:
+                self.fd_of[peer_key(conn._config["endpoints"][1])] = fd
+            except Exception:  # noqa
+                pass
+
     def do(self, tok):
         """execute one token; returns the acting client's observation"""
         t, rest = tok[0], tok[1:]
+        self.refresh_fds()
         if t == "X":
             return self.backend.close_server(self.call_timeout + 1.0)
         if t == "c":
-            k, cred = rest.split(":")
-            k = int(k)
+            parts = rest.split(":")
+            k, cred = int(parts[0]), parts[1]
             if k in self.clients:
                 return "skip"
             c = Client(k, self)
-            res = c.connect(cred)
-            if res == "ok":
-                self.clients[k] = c
+            plugs = []
+            if len(parts) == 3:
+                # make the number client j's closed socket had the LOWEST free one of this process, as it would be in a server
+                # process of its own: plug whatever lower numbers happen to be free in the harness
+                j = self.clients.get(int(parts[2]))
+                target = self.fd_of.get(j.peer) if j is not None else None
+                while target is not None and len(plugs) < 64:
+                    d = os.dup(0)
+                    if d < target:
+                        plugs.append(d)
+                        continue
+                    os.close(d)
+                    break
+            try:
+                res = c.connect(cred)
+                if res == "ok":
+                    self.clients[k] = c
+                if res == "ok" and len(parts) == 3:
+                    wait_for(lambda: self.server_fd(c.peer) is not None, 3.0)
+            finally:
+                for d in plugs:
+                    os.close(d)
+            if res == "ok" and len(parts) == 3:
+                # the accepted socket is expected to get the descriptor number client j's closed socket had (pool)
+                j = self.clients.get(int(parts[2]))
+                mine = lambda: self.server_fd(c.peer)          # noqa: E731
+                if j is None or wait_for(lambda: mine() is not None, 3.0) is None:
+                    return "ok-unaccepted"
+                if mine() != self.fd_of.get(j.peer):
+                    return "ok-number-%s-not-reused(%s)" % (self.fd_of.get(j.peer), mine())
             return res
+        if t == "m":
+            c = self.clients.get(int(rest))
+            if c is None or not c.open:
+                return "skip"
+            return c.call("arm")
+        if t == "h":
+            c = self.clients.get(int(rest))
+            if c is None:
+                return "skip"
+            for what, peer, inst in self.backend.hook_table():
+                if peer == c.peer and not isinstance(inst, str) and inst.gate is not None:
+                    inst.gate.set()
+            return "-"
         if t in "plgaiz":
             k = int(rest.split(":")[0])
             c = self.clients.get(k)
@@ -925,8 +1001,20 @@ class Session(object):
             return "-"
         raise ValueError("unknown token %r" % (tok,))
 
+    def server_fd(self, peer):
+        """the descriptor number under which the pool holds the (open) connection of that peer"""
+        srv = getattr(self.backend, "srv", None)
+        for fd, conn in list(getattr(srv, "fd_to_conn", {}).items()):
+            try:
+                if not conn.closed and peer_key(conn._config["endpoints"][1]) == peer:
+                    return fd
+            except Exception:  # noqa
+                pass
+        return None
+
     # -- observation --------------------------------------------------------------------------
     def observe(self):
+        self.refresh_fds()
         snap = self.backend.snapshot()
         held = sum(1 for c in self.clients.values() if c.holds_fd())
         if self.kind != "forking":
@@ -985,6 +1073,12 @@ class Session(object):
             time.sleep(INTERVAL)
 
     def close(self):
+        try:
+            for what, peer, inst in self.backend.hook_table():
+                if not isinstance(inst, str) and getattr(inst, "gate", None) is not None:
+                    inst.gate.set()
+        except Exception:  # noqa
+            pass
         for c in list(self.clients.values()):
             try:
                 if c.sock is not None:
